@@ -73,8 +73,56 @@ def battery_replay(m=None):
     return {"inputs": bad or "battery of 2^4 strand x 2 layouts x 2 seqid patterns x 2 types", "expected": bad and bad["expected"], "observed": bad and bad["observed"], "violates": bad is not None}
 
 
+def _establish(U):
+    """establishment: the first feature initialises the loop state.  The ROLES of the loop-carried locals are read
+    off the state after that first iteration (not their names, so that renaming or reordering locals is harmless):
+    the dict that becomes the next interfeature, the names bound to the feature just seen, integer counters."""
+    it = Interp()
+    it.contracts[B.bins] = bins_contract
+    it.contracts[H._jsonify] = lambda interp, a, k: "<json>"
+
+    def run0(ctx):
+        f = sfeat("f")
+        ctx.stash["f"] = f
+
+        def setup(env, c, iterable):
+            return (0, f)
+        install_loop_body_hook(it, "interfeatures", 0, setup)
+        try:
+            list(it.call(I.FeatureDB.interfeatures, [blank_db(), [f]], {}))
+        except LoopExit as e:
+            return {"yields": list(e.env.vars.get("$yield", [])), "vars": dict(e.env.vars)}
+        raise Undecided("interfeatures: the first feature does not reach the body of the first loop (loop structure not recognised)")
+    roles = None
+    for p in U.explore(run0, it):
+        ok = p.kind == "return"
+        goal = z3.BoolVal(False)
+        if not ok and not battery_replay({}).get("violates"):
+            # the harness binds to the loop structure (first loop, item = (index, feature) or feature); an exception here
+            # with a native battery that still holds means the structure was not recognised, not that the property fails
+            raise Undecided("interfeatures: executing the first loop iteration on the first feature raised %r (loop structure not recognised)" % (p.value,))
+        if ok:
+            r, f = p.value, p.ctx.stash["f"]
+            vs = r["vars"]
+            inter = sorted(k for k, v in vs.items() if isinstance(v, dict) and v.get("source") == "gffutils_derived" and "seqid" in v)
+            lastn = sorted(k for k, v in vs.items() if v is f and not k.startswith("$"))
+            counters = sorted(k for k, v in vs.items() if isinstance(v, int) and not isinstance(v, bool) and v == 1 and not k.startswith("$"))
+            if len(inter) != 1 or not lastn:
+                raise Undecided("interfeatures: loop state after the first feature not recognised (dict candidates %r, previous-feature candidates %r)" % (inter, lastn))
+            this = {"inter": inter[0], "last": lastn, "counters": counters}
+            if roles is not None and roles != this:
+                raise Undecided("interfeatures: loop state differs between paths of the first iteration")
+            roles = this
+            goal = z3.And(z3.BoolVal(r["yields"] == []), _streq(vs[inter[0]]["seqid"], f.seqid))
+        U.prove("C15.inter.init#p%d" % p.index, "the first feature yields nothing and establishes the invariant (a pending interfeature on its seqid with source 'gffutils_derived'; it is the previous feature)", p.pc, goal, {}, replay=battery_replay)
+    if roles is None:
+        raise Undecided("interfeatures: establishment did not return")
+    return roles
+
+
 def unit_body(U):
     """fold rule on the loop body of interfeatures"""
+    roles = _establish(U)
     for nft, ma, upd, ids in itertools.product(("none", "given"), (True, False), (None, {"extra": ["1"]}), (0, 1, 2)):
         if not U.thorough and ((upd is not None and (not ma or ids != 1)) or (not ma and ids != 1)):
             continue
@@ -102,9 +150,11 @@ def unit_body(U):
                          "featuretype": SStr([Val(z3.String("st.featuretype"))]), "start": SInt(z3.Int("st.start")), "end": SInt(z3.Int("st.end")),
                          "score": SStr([Val(z3.String("st.score"))]), "strand": SStr([Val(z3.String("st.strand"))]), "frame": SStr([Val(z3.String("st.frame"))]),
                          "attributes": {"stale": ["x"]}, "bin": SInt(z3.Int("st.bin"))}
-                env.store("interfeature", inter)
-                env.store("last_feature", last)
-                env.store("nfeatures", 1)
+                env.store(roles["inter"], inter)
+                for nm in roles["last"]:
+                    env.store(nm, last)              # (the loop target among them is re-bound to the new item right after)
+                for nm in roles["counters"]:
+                    env.store(nm, 1)
                 i = z3.Int("i")
                 c.assume(i >= 1)
                 state["inter"] = inter
@@ -116,8 +166,8 @@ def unit_body(U):
                 list(it.call(I.FeatureDB.interfeatures, [db, [last, f]], {"new_featuretype": None if nft == "none" else "intron", "merge_attributes": ma, "update_attributes": upd}))
             except LoopExit as e:
                 env = e.env
-                return {"yields": list(env.vars.get("$yield", [])), "kind": e.payload, "last": env.vars.get("last_feature"), "nfeatures": env.vars.get("nfeatures"),
-                        "inter": env.vars.get("interfeature")}
+                return {"yields": list(env.vars.get("$yield", [])), "kind": e.payload, "last": [env.vars.get(nm) for nm in roles["last"]],
+                        "counters": [env.vars.get(nm) for nm in roles["counters"]], "inter": env.vars.get(roles["inter"])}
             raise Undecided("loop hook not reached")
         base = "C15.inter.step[type=%s,merge=%s,update=%s,ids=%d]" % (nft, ma, "yes" if upd else "no", ids)
         for p in U.explore(run, it):
@@ -162,37 +212,12 @@ def unit_body(U):
                     U.prove(base + ".attributes#p%d" % p.index, "merge_attributes=False ==> attributes are just update_attributes (or empty)", [], z3.BoolVal(bool(okd)), vars_, replay=battery_replay)
             # invariant re-established
             inter = r["inter"]
-            inv = z3.And(z3.BoolVal(r["last"] is f and r["nfeatures"] == 1 and isinstance(inter, dict) and inter.get("source") == "gffutils_derived"),
+            inv = z3.And(z3.BoolVal(all(x is f for x in r["last"]) and all(isinstance(c, int) and c == 1 for c in r["counters"]) and isinstance(inter, dict) and inter.get("source") == "gffutils_derived"),
                          _streq(inter["seqid"], f.seqid) if isinstance(inter, dict) else z3.BoolVal(False))
-            U.prove(base + ".invariant#p%d" % p.index, "after the step: last_feature is the new feature, nfeatures == 1, interfeature.seqid == its seqid, source 'gffutils_derived'", p.pc, inv, vars_, replay=battery_replay)
+            U.prove(base + ".invariant#p%d" % p.index, "after the step: the previous-feature variable is the new feature, counters are back to 1, the pending interfeature is on its seqid with source 'gffutils_derived'", p.pc, inv, vars_, replay=battery_replay)
             # frame
             bad = [w for w in p.ctx.writes if w[0] is last or w[0] is f or w[0] is last.attributes or w[0] is f.attributes or w[0] is last.attributes._d or w[0] is f.attributes._d]
             U.prove(base + ".frame#p%d" % p.index, "no input feature (or its attributes) is written; no SQL statement is issued", [], z3.BoolVal(not bad and not ghostdb.executes(p.ctx)), vars_, replay=battery_replay)
-
-    # establishment: the first feature initialises the state
-    it = Interp()
-    it.contracts[B.bins] = bins_contract
-    it.contracts[H._jsonify] = lambda interp, a, k: "<json>"
-
-    def run0(ctx):
-        f = sfeat("f")
-        ctx.stash["f"] = f
-        state = {}
-
-        def setup(env, c, iterable):
-            return (0, f)
-        install_loop_body_hook(it, "interfeatures", 0, setup)
-        try:
-            list(it.call(I.FeatureDB.interfeatures, [blank_db(), [f]], {}))
-        except LoopExit as e:
-            return {"yields": list(e.env.vars.get("$yield", [])), "last": e.env.vars.get("last_feature"), "nfeatures": e.env.vars.get("nfeatures"), "inter": e.env.vars.get("interfeature")}
-    for p in U.explore(run0, it):
-        ok = p.kind == "return"
-        goal = z3.BoolVal(False)
-        if ok:
-            r, f = p.value, p.ctx.stash["f"]
-            goal = z3.And(z3.BoolVal(r["yields"] == [] and r["last"] is f and r["nfeatures"] == 1 and r["inter"].get("source") == "gffutils_derived"), _streq(r["inter"]["seqid"], f.seqid))
-        U.prove("C15.inter.init#p%d" % p.index, "the first feature yields nothing and establishes the invariant", p.pc, goal, {}, replay=battery_replay)
 
 
 def unit_introns(U):
